@@ -23,6 +23,7 @@ import SarpyModel.Drivers.XsdFmt
 import SarpyModel.Drivers.Kernels2
 import SarpyModel.Drivers.Loops
 import SarpyModel.Drivers.LoopsChip
+import SarpyModel.Drivers.LoopsSidd
 namespace Sarpy.Drivers
 
 def step (line : String) : String :=
@@ -53,6 +54,7 @@ def step (line : String) : String :=
   | "k2" :: rest => (k2Step rest).getD "bad-op"
   | "loops" :: rest => (loopsStep rest).getD "bad-op"
   | "loopsc" :: rest => (loopscStep rest).getD "bad-op"
+  | "loopss" :: rest => (loopssStep rest).getD "bad-op"
   | _ => "bad-op"
 
 partial def loop (h : IO.FS.Stream) : IO Unit := do
